@@ -841,7 +841,7 @@ def stream_di(ctx: Ctx, w: World) -> Stream:
 			d['case'] = {'kind': d['case'].get('kind'), 'ops_json': [op_to_json(o) for o in d['case']['ops']]}
 	st.histogram = {**st.histogram, **{f'out:{k}': v for k, v in sorted(hist_out.items())}}
 	st.note = (f'op sequences (<= {max_ops} ops) over 6 symbol classes (2 generic), {len(w.factories)} factories (classes, functions, bound methods, '
-		'callable objects with/without __qualname__, closures and redefinitions sharing a qualified name, lambdas, unannotated parameters), '
+		'callable objects with/without __qualname__, closures and redefinitions sharing a qualified name, two bound methods of one function, lambdas, unannotated parameters), '
 		'by-name definitions through a scratch module (incl. missing attribute / missing module), <= 5 containers; '
 		'observations: creation serial + factory + argument identities of resolved/invoked instances, can_resolve, exception enum')
 	return st
@@ -927,7 +927,12 @@ def search_reference(ctx: Ctx, w: World) -> SearchResult:
 				res.samples.append({'case': name, 'ops': [op_line(w, o) for o in ops[:8]], 'observations': real[:8]})
 			continue
 		at = first_diff(real, ideal)
-		explained, ex = exhibited(w, ops, real)
+		divergent = sum(v for k, v in hist.items() if k != 'agrees')
+		if divergent >= 60:
+			# enough concrete failing inputs recorded; the classification costs up to 31 reference runs per case
+			hist['divergence (not classified: budget)'] += 1
+			continue
+		explained, ex = exhibited(w, ops[:at + 1], real[:at + 1])
 		if not explained:
 			keys = ['unexplained-divergence']
 		else:
@@ -962,20 +967,13 @@ STATEMENTS = {
 	'run_refines': 'whole runs: the concrete dictionaries and the Spec produce the same outputs and abs-related final states for every op sequence',
 	'singleton': 'after resolve(c, r) returned o, every later resolve of that symbol (any spelling Gen / Gen[A]) on c returns the same o, whatever happens in between on any container, unless the symbol is bound/rebound/unbound on c',
 	'rebind_fresh': 'whatever is resolved for a symbol after a successful rebind (until its next bind/rebind/unbind) was created after the rebind and by the new factory',
-	'combine_right_statement': '(def) in combine(a, b) every symbol holds b\'s entry (binding and instance) if b can resolve it, else a\'s',
-	'combine_right_counterexample': 'FALSE on the pinned code (DI): b binds without instance, a has an instance -> result pairs b\'s factory with a\'s instance',
-	'combine_right_lazy_counterexample': 'FALSE on the pinned code (LazyDI): b only defines the symbol, a has materialised it -> a\'s binding and instance survive',
-	'combine_right_partial': 'the right operand wins whenever a holds no instance for symbols b binds without instance and no materialised binding for symbols b only defines (e.g. disjoint symbol sets as in entrypoints.py)',
+	'combine_right': 'for every history: in combine(a, b) every symbol holds b\'s entry (binding and instance, or unresolved definition) if b can resolve it, else a\'s (two regression examples = the witnesses that were counterexamples before 6d5a231)',
 	'combine_frame': 'an op leaves every container it is not addressed to exactly as it was (operands of combine/_clone keep behaving as before, and vice versa)',
 	'lazy_materialise': 'a definition resolved in a clone is materialised there only; the original still holds the unresolved definition and later creates its own, younger instance',
 	'unknown': 'when can_resolve answers False, resolve raises ValueError and changes nothing',
-	'unknown_invoke': 'invoke of a factory whose first annotated parameter cannot be resolved, without remaining arguments, raises ValueError on the first call for its qualified name (any state)',
-	'invoke_fill_statement': '(def) invoke curries exactly the leading resolvable annotated parameters of the factory itself, raises ValueError unless the remaining arguments match the remaining annotated parameters one to one, else calls the factory',
-	'invoke_alias_counterexample': 'FALSE: annotation cache keyed by qualified name -> second closure of one def curried with the first one\'s annotations',
-	'invoke_second_counterexample': 'FALSE: signature check only on the first call per qualified name -> later mismatched call returns an object',
-	'invoke_extra_counterexample': 'FALSE: surplus remaining arguments raise IndexError instead of ValueError',
-	'fuel_sufficient': 'fuel is only a device: if the bindings of the history respect a rank (acyclic factory graph, coherent qualified names), resolve/invoke with more fuel than the rank never yields RecursionError',
-	'invoke_fill_partial': 'for histories whose factories agree on annotations per qualified name: the code equals the law on every call for which the law does not demand ValueError, and (ValueError included) on first calls unless the code raises IndexError',
+	'unknown_invoke': 'invoke, without remaining arguments, of a factory whose first annotated parameter cannot be resolved raises ValueError, on every call',
+	'invoke_fill': 'for every history: invoke curries exactly the leading resolvable annotated parameters of the factory itself, raises ValueError unless the remaining arguments match the remaining annotated parameters one to one, else calls the factory; the annotation cache is invisible (three regression examples = the witnesses that were counterexamples before c3fd82c)',
+	'fuel_sufficient': 'fuel is only a device: if the bindings of the history respect a rank (acyclic factory graph), resolve/invoke with more fuel than the rank never yields RecursionError',
 }
 
 
@@ -994,9 +992,9 @@ def run(ctx: Ctx) -> int:
 	return common.finish(ctx, proof, streams, searches,
 		statements=STATEMENTS,
 		partial={
-			'proved': 'refinement concrete dictionaries -> Spec for every op sequence; singleton per binding generation; rebind discards the instance; frame (operands of combine/clone are unaffected); lazy materialisation is per clone; unknown symbol -> ValueError; invoke law and combine-right law under the stated side conditions',
-			'false_on_pinned_tree': 'invoke law (qualified-name alias, unchecked later calls, IndexError on surplus arguments) and combine-right law (left instance / left materialised binding shadows the right operand): Lean counterexamples, each replayed on the real code by the search',
-			'correspondence_only': 'dictionaries are copied not shared by _clone/combine (the Lean model has value semantics, so aliasing is excluded by construction and tied by the stream, which keeps using all operands after combine); Python-level details of what a factory object exposes (__qualname__, __annotations__, arity)',
+			'proved': 'refinement concrete dictionaries -> Spec for every op sequence; singleton per binding generation; rebind discards the instance; combine: right operand wins (bindings, instances, unresolved definitions); frame (operands of combine/clone are unaffected); lazy materialisation is per clone; unknown symbol -> ValueError; the invoke law (fill leading resolvable annotated parameters, validate the rest on every call)',
+			'regression': 'the five defects of the snapshot tree (repaired by c3fd82c / 6d5a231) are corpus cases of the stream and OFF-switches of the reference: their return is reported under the old finding keys with the op sequence',
+			'correspondence_only': 'dictionaries are copied not shared by _clone/combine (the Lean model has value semantics, so aliasing is excluded by construction and tied by the stream, which keeps using all operands after combine); Python-level details of what a factory object exposes (__annotations__ of __to_annotated(factory), hash/equality of that callable, arity)',
 		},
 		assumptions=[
 			'symbol classes are importable module-level classes with pairwise different full names (so LazyDI\'s path keys and DI\'s class keys are in bijection)',
@@ -1019,11 +1017,11 @@ def replay(ctx: Ctx, path: str) -> int:
 	real = run_real(w, ops)
 	ideal = run_ref(w, ops, IDEAL)
 	model = common.lean_driver('di', [op_line(w, o) for o in [('reset',), *ops]])[1:]
-	print(f'{"op":60} | real | reference(Spec) | lean model of the pinned code')
+	print(f'{"op":60} | real | reference(Spec) | lean model')
 	for o, r, i, m in zip(ops, real, ideal, model):
 		flag = '   <-- differs from the reference' if r != i else ''
 		print(f'{op_line(w, o).replace(chr(9), " "):60} | {r} | {i} | {m}{flag}')
-	explained, ex = exhibited(w, ops, real)
-	print(f'explained by the known deviations: {explained}; exhibited: {ex}')
+	explained, ex = exhibited(w, ops, real) if real != ideal else (True, [])
+	print(f'explained by repaired defects returning: {explained}; {ex}')
 	ctx.cleanup()
 	return 1 if real != ideal else 0
